@@ -32,7 +32,7 @@ ASSUME = ["top-level unit names are unique in the workspace", "the baseline sche
 
 def plan(tier):
     if tier == "quick":
-        return {"ncases": 48, "nshards": 16, "budget_s": 80, "floor": 20000, "stall_s": 70}
+        return {"ncases": 160, "nshards": 16, "budget_s": 80, "floor": 100000, "stall_s": 70}
     return {"ncases": 4000, "nshards": 16, "budget_s": 2400, "floor": 1500000, "stall_s": 300}
 
 
@@ -60,7 +60,7 @@ def in_child(fn):
         return ("exc", "child died")
 
 
-def pooled(root, files, pos, nthreads, list_seed, delay_seed):
+def pooled(root, files, pos, nthreads, list_seed, delay_seed, args=None):
     def fn():
         if list_seed is not None:
             IM.install_listdir(list_seed)
@@ -69,7 +69,7 @@ def pooled(root, files, pos, nthreads, list_seed, delay_seed):
         if delay_seed is not None:
             IM.install_worker_delay(delay_seed)
         ws = H.Workspace(root=root)
-        srv = H.Server(nthreads=nthreads)
+        srv = H.Server(args, nthreads=nthreads)
         ev = srv.initialize(root)
         if ev[0] != "resp":
             return {"INIT": str(ev[:4])}
@@ -77,10 +77,10 @@ def pooled(root, files, pos, nthreads, list_seed, delay_seed):
     return in_child(fn)
 
 
-def incremental(root, empty_root, files, pos, order):
+def incremental(root, empty_root, files, pos, order, args=None):
     def fn():
         ws = H.Workspace(root=root)
-        srv = H.Server(nthreads=1)
+        srv = H.Server(args, nthreads=1)
         ev = srv.initialize(empty_root)
         for f in order:
             srv.did_open(ws.uri(f))
@@ -88,10 +88,10 @@ def incremental(root, empty_root, files, pos, order):
     return in_child(fn)
 
 
-def hashseed(root, files, pos, seed, nthreads, list_seed):
+def hashseed(root, files, pos, seed, nthreads, list_seed, args=None):
     from vf.dsub import SubServer
     ws = H.Workspace(root=root)
-    sub = SubServer(["--disable_autoupdate", "--nthreads", str(nthreads)], hashseed=str(seed), monitors={"listdir_seed": list_seed})
+    sub = SubServer(["--disable_autoupdate", "--nthreads", str(nthreads)] + list(args or []), hashseed=str(seed), monitors={"listdir_seed": list_seed})
     try:
         r = sub.request(1, "initialize", {"rootPath": root}, timeout=60)
         if r is None or "result" not in r:
@@ -131,6 +131,11 @@ def run_case(ctx, i, rng):
     w = M.gen_workspace(rng, style=None, tight=False)
     files = dict(w.files)
     files.update(B.EXTRA_FILES)
+    args = None
+    if rng.random() < 0.5:
+        # lower-case suffix preprocessed by configuration: the worker processes must apply the same setting as the in-process path
+        files.update(B.PP_FILES)
+        args = ["--pp_suffixes", ".f90", ".F90"]
     if M.have_gfortran():
         ok, err = M.gfortran_check(w.files, w.order)
         if not ok:
@@ -142,7 +147,7 @@ def run_case(ctx, i, rng):
         pos = B.positions(files, rng, per_file=12 if quick else 30)
         wit = {"files": files}
         ctx.mark({"files": list(files)})
-        st, base = pooled(root, files, pos, 1, None, None)
+        st, base = pooled(root, files, pos, 1, None, None, args)
         if st != "ok" or "INIT" in base:
             res.inconclusive.append(f"baseline failed: {str(base)[:300]}")
             return res
@@ -150,7 +155,7 @@ def run_case(ctx, i, rng):
         # pooled schedules
         for nth in ([2, 4, 16] if quick else [1, 2, 3, 4, 8, 16]):
             ls, ds = rng.randrange(10 ** 6), rng.randrange(10 ** 6)
-            st, got = pooled(root, files, pos, nth, ls, ds if rng.random() < 0.7 else None)
+            st, got = pooled(root, files, pos, nth, ls, ds if rng.random() < 0.7 else None, args)
             tag = f"pooled:nthreads={nth}:listing={ls}:delays={'on' if ds is not None else 'off'}"
             res.kind(f"schedule:pooled:nthreads={nth}")
             if st != "ok" or "INIT" in got:
@@ -170,7 +175,7 @@ def run_case(ctx, i, rng):
             orders.append(tuple(srcs))
             orders.append(tuple(reversed(srcs)))
         for o in orders[: (3 if quick else 12)]:
-            st, got = incremental(root, empty.root, files, pos, o)
+            st, got = incremental(root, empty.root, files, pos, o, args)
             tag = "incremental:order=" + ",".join(os.path.basename(x) for x in o)
             res.kind("schedule:incremental")
             if st != "ok":
@@ -180,7 +185,7 @@ def run_case(ctx, i, rng):
         # hash seeds (real subprocess; the seed is fixed at interpreter start)
         if i % (4 if quick else 2) == 0:
             for seed in ([rng.randint(1, 7)] if quick else [1, 2, 3, 5]):
-                st, got = hashseed(root, files, pos, seed, rng.choice([1, 4]), rng.randrange(10 ** 6))
+                st, got = hashseed(root, files, pos, seed, rng.choice([1, 4]), rng.randrange(10 ** 6), args)
                 tag = f"hashseed:{seed}"
                 res.kind("schedule:hashseed")
                 if st != "ok":
